@@ -1344,6 +1344,50 @@ func TestVerif_X06Dyn(t *testing.T) {
 		t.Skip("VERIF_IN/VERIF_OUT not set")
 	}
 	seed, _ := strconv.ParseUint(os.Getenv("VERIF_SEED"), 10, 64)
+	workers, _ := strconv.Atoi(os.Getenv("VERIF_WORKERS"))
+	if workers <= 0 {
+		workers = 4
+	}
+	var scens []x06Scenario
+	x06ReadLines(t, in, func(b []byte) {
+		var sc x06Scenario
+		if err := json.Unmarshal(b, &sc); err != nil {
+			t.Fatalf("bad scenario: %v", err)
+		}
+		scens = append(scens, sc)
+	})
+	prog, _ := os.Create(outp + ".progress")
+	if prog != nil {
+		defer prog.Close()
+	}
+	var progMu sync.Mutex
+	// every scenario runs in its own synctest bubble; the bubbles are spread over parallel subtests
+	events := make([][]x06Ev, len(scens))
+	var next atomic.Int64
+	t.Run("replay", func(t *testing.T) {
+		for w := 0; w < workers; w++ {
+			t.Run(fmt.Sprintf("w%d", w), func(t *testing.T) {
+				t.Parallel()
+				for {
+					i := int(next.Add(1)) - 1
+					if i >= len(scens) {
+						return
+					}
+					sc := scens[i]
+					if prog != nil {
+						progMu.Lock()
+						fmt.Fprintf(prog, "%s\n", sc.ID)
+						progMu.Unlock()
+					}
+					r := rand.New(rand.NewPCG(seed, uint64(i)+1))
+					synctest.Test(t, func(t *testing.T) {
+						x06RunDyn(t, sc, r, func(e x06Ev) { events[i] = append(events[i], e) })
+						time.Sleep(time.Minute)
+					})
+				}
+			})
+		}
+	})
 	fout, err := os.Create(outp)
 	if err != nil {
 		t.Fatal(err)
@@ -1352,28 +1396,11 @@ func TestVerif_X06Dyn(t *testing.T) {
 	w := bufio.NewWriter(fout)
 	defer w.Flush()
 	enc := json.NewEncoder(w)
-	prog, _ := os.Create(outp + ".progress")
-	if prog != nil {
-		defer prog.Close()
+	for _, evs := range events {
+		for _, e := range evs {
+			if err := enc.Encode(e); err != nil {
+				t.Fatal(err)
+			}
+		}
 	}
-	n := 0
-	x06ReadLines(t, in, func(b []byte) {
-		var sc x06Scenario
-		if err := json.Unmarshal(b, &sc); err != nil {
-			t.Fatalf("bad scenario: %v", err)
-		}
-		n++
-		if prog != nil {
-			fmt.Fprintf(prog, "%s\n", sc.ID)
-		}
-		r := rand.New(rand.NewPCG(seed, uint64(n)))
-		synctest.Test(t, func(t *testing.T) {
-			x06RunDyn(t, sc, r, func(e x06Ev) {
-				if err := enc.Encode(e); err != nil {
-					t.Fatal(err)
-				}
-			})
-			time.Sleep(time.Minute)
-		})
-	})
 }
